@@ -411,8 +411,8 @@ func main() {
 	r.Assume("hash functions are deterministic", "Clear is only called at quiescent points (the property states race-freedom for adding and querying)", "race detector (-race) and porcupine v1.3.0 are trusted")
 	r.MinShapes(30)
 
-	nSeq := r.N(500, 8000)
-	nConc := r.N(250, 3000)
+	nSeq := r.N(500, 5000)
+	nConc := r.N(250, 1500)
 	r.Parallel(nSeq+nConc, func(c *vk.Case) {
 		if c.Idx < nSeq {
 			sequentialCase(r, c)
